@@ -56,6 +56,21 @@ Proof.
   intros H. specialize (H 20 wit_log_defs wit_log_inputs eq_refl eq_refl). vm_compute in H. discriminate.
 Qed.
 
+(* f = func(a,b,c){a+(b+c)}  f([1],2,3)  f = func(a,b,c){a+b+c}  f([1],2,3)   -> [1,5] again instead of [1,2,3].
+   The cache key is the PRINTED text of the function, and the printer is not injective (recorded C02 findings:
+   a+(b+c) prints a+b+c; "(if ..)+3" and "if ..; +3" print alike): two different functions share one key.
+   The model takes the key text as given; here both definitions carry the same one, as on /repo. *)
+Definition wit_coll_defs : list fdef :=
+  [ mkDef [107]%N None [[97]%N; [98]%N; [99]%N] (EBin OAdd (EVar [97]%N) (EBin OAdd (EVar [98]%N) (EVar [99]%N)));
+    mkDef [107]%N None [[97]%N; [98]%N; [99]%N] (EBin OAdd (EBin OAdd (EVar [97]%N) (EVar [98]%N)) (EVar [99]%N)) ].
+Definition wit_coll_call : expr := ECall (EVar [102]%N) [ELit (VArr [VInt 1]); ELit (VInt 2); ELit (VInt 3)].
+Definition wit_coll_inputs : list expr :=
+  [ EAssign [102]%N (EFun 0); wit_coll_call; EAssign [102]%N (EFun 1); wit_coll_call ].
+Theorem C04_refuted_printed_text_collision : ~ cache_unobservable_nolog.
+Proof.
+  intros H. specialize (H 20 wit_coll_defs wit_coll_inputs eq_refl eq_refl). vm_compute in H. discriminate.
+Qed.
+
 (* ---------------------------------------------------------------- what IS proved, for all histories *)
 
 (* Every cache store happens only when the call's miss counter did not move, the result is not an error (nor
@@ -166,6 +181,7 @@ Proof. vm_compute. repeat split. Qed.
 Print Assumptions C04_refuted_redefined_callee.
 Print Assumptions C04_refuted_redefined_callee_full.
 Print Assumptions C04_refuted_log_not_replayed.
+Print Assumptions C04_refuted_printed_text_collision.
 Print Assumptions cache_store_discipline.
 Print Assumptions cache_store_events_complete.
 Print Assumptions cache_hit_replays_exactly.
